@@ -97,6 +97,7 @@ func AddKindHook(hook KindHook) (_ struct{}) {
 func DefaultHooks() []mapstructure.DecodeHookFunc {
 	return []mapstructure.DecodeHookFunc{
 		VariableInjectHook,
+		WholeNumberHook,
 		DebugHook,
 		TextUnmarshallerHook,
 		mapstructure.StringToTimeDurationHookFunc(),
